@@ -83,6 +83,7 @@ impl Daemon {
             vworld::clock::set_thread_virtual(virtual_time);
             // As the daemon does: the writer is created by the thread that uses it.
             let writer = ShmWriter::new(&p2).expect("ShmWriter::new");
+            vworld::close_fds_pointing_to(&p2, &[]);
             let tee = Tee { inner: writer, log: log2, notify: tx };
             let _ = ready_tx.send(());
             process_messages_with(ctx, tee, max_drift_ppb);
